@@ -328,7 +328,7 @@ def run_case(case, tier):
         recs, ntw = make_twins(base, rng)
     if case["kind"] in ("cutout", "twins") and rng.random() < 0.35:
         recs = split_chains(recs, rng, classes)
-    if case["kind"] != "file" and rng.random() < 0.25:
+    if case["kind"] not in ("file", "his-amide") and rng.random() < 0.25:
         # two copies of one ligand in two chains, under different residue numbers
         from .. import fragments
         from .c16 import titratable_anchor
@@ -357,7 +357,7 @@ def run_case(case, tier):
         pick = rng.choice(ids)
         opts, opts_b = opts + ["-c", pick], opts_b + ["-c", rdesc.get("map", {}).get(pick, pick)]
         classes.append("with-chain-selection")
-    if "-c" not in opts and rng.random() < 0.15:
+    if "-c" not in opts and rng.random() < (0.4 if has_twins(recs) else 0.15):
         # a titrate-only list naming the same residues under their old and their new labels
         a_at, b_at = pdbio.atoms(recs), pdbio.atoms(new)
         if len(a_at) == len(b_at):
@@ -367,6 +367,15 @@ def run_case(case, tier):
             cand = [k_ for k_ in util.titratable_residues(recs) if k_ in m_ and k_[0] != " " and m_[k_][0] != " "]
             if cand:
                 pick = rng.sample(cand, min(len(cand), rng.choice((1, 2, 4))))
+                # a residue that shares its number with an insertion-coded neighbour, when there is one
+                nums = {}
+                for k_ in m_:
+                    nums.setdefault((k_[0], k_[1]), set()).add(k_[2])
+                tw_ = [k_ for k_ in cand if len(nums[(k_[0], k_[1])]) > 1]
+                if tw_ and rng.random() < 0.7:
+                    pick = [rng.choice(tw_)] + [k_ for k_ in pick if (k_[0], k_[1]) != (pick[0][0], pick[0][1])][:2]
+                    pick = list(dict.fromkeys(pick))
+                    classes.append("twin-residue-listed")
                 opts = opts + ["-i", ",".join(util.res_arg(k_) for k_ in pick)]
                 opts_b = opts_b + ["-i", ",".join(util.res_arg(m_[k_]) for k_ in pick)]
                 classes.append("with-titrate-only-list")
@@ -392,11 +401,17 @@ def run_case(case, tier):
                 if (g["ctg"] is None) != (h["ctg"] is None):
                     diffs.append((cname, "coupling", g["label"], "penalised", g["ctg_label"], h["ctg_label"]))
     if diffs:
-        if kind == "icode-renumber" and twins:
+        single = bool(ra.rec) and len(ra.rec["names"]) == 1
+        structural = [d_ for d_ in diffs if len(d_) > 1 and ((single and d_[1] in ("missing-in-a", "missing-in-b")) or (
+            d_[1] == "group" and len(d_) > 4 and d_[4] in ("titratable", "use", "type", "rtype", "charge")))]
+        if kind == "icode-renumber" and twins and not structural:
+            # the known merging of insertion-code twins moves numbers (desolvation, determinants) and, when
+            # conformations are completed, loses atoms of twin residues in the later conformations; which groups
+            # titrate and are reported (and, in a single conformation, exist) does not depend on it
             cls = "icode-twins-merged"
         else:
             cls = "labels-influence-results:" + kind
-        viol.append({"cls": cls, "msg": "%s %r (twins in input: %s): %s" % (kind, rdesc, twins, obs.brief(diffs, 4)),
+        viol.append({"cls": cls, "msg": "%s %r (twins in input: %s): %s" % (kind, rdesc, twins, obs.brief(structural or diffs, 4)),
                      "detail": {"twins": twins}})
     nchains = len({r.chain for r in recs if r.raw is None})
     ntit = sum(1 for g in ra.rec["confs"]["AVR"]["groups"] if g["titratable"]) if ra.rec else 0
